@@ -114,22 +114,30 @@ def represent(a, rep):
 def lattice(c, k):
     """effective lattice of the case: CONC[k], but a variable whose representation cannot hold the lattice values
     exactly (float32 / integers / unsigned with a fractional unit, a negative or a huge offset) falls back to the
-    plain integers (unit 1, offset 0).  -> dict(unit, off, yunit, yoff, wunit, dt, ydt)"""
+    plain integers (unit 1, offset 0), and to float64 if even those do not fit.
+    -> dict(unit, off, yunit, yoff, wunit, dt, ydt, rep = the representations actually used)"""
     unit, off, wunit, dt, yunit, yoff, ydt = CONC[k]
     rep = c.get("rep", NATIVE)
     lims = ([c["min"]] if c["hasmin"] else []) + ([c["max"]] if c["hasmax"] else [])
     ok = lambda vals, u, o, r: represent(np.array([(v + o) * u for v in vals], dtype="f8"), r) is not None      # noqa
+    rep = dict(rep)
     if not ok(c["x"], unit, off, rep["x"]):
         unit, off, dt = 1.0, 0, "f8"
+        if not ok(c["x"], unit, off, rep["x"]):          # not even the plain integers fit (uint8 and a value > 255)
+            rep["x"] = "f8"
     if not ok(c["y"], yunit, yoff, rep["y"]):
         yunit, yoff, ydt = 1.0, 0, "f8"
-    if c["w"] and not ok([v for v in c["w"]], wunit, 0, rep["w"]):
+        if not ok(c["y"], yunit, yoff, rep["y"]):
+            rep["y"] = "f8"
+    if c["w"] and not ok(c["w"], wunit, 0, rep["w"]):
         wunit = 1.0
-    return dict(unit=unit, off=off, wunit=wunit, dt=dt, yunit=yunit, yoff=yoff, ydt=ydt)
+        if not ok(c["w"], wunit, 0, rep["w"]):
+            rep["w"] = "f8"
+    return dict(unit=unit, off=off, wunit=wunit, dt=dt, yunit=yunit, yoff=yoff, ydt=ydt, rep=rep)
 
 
 def concretise(c, L):
-    rep = c.get("rep", NATIVE)
+    rep = L["rep"]
     unit, off = L["unit"], L["off"]
 
     def mk(vals, u, o, dt, r):
@@ -389,7 +397,7 @@ def run_case(job):
         need_den(sum(c["w"]) ** 4, "total weight")
     need_den(len(c["x"]) ** 3, "array length")
     L = lattice(c, k)
-    return {"id": i, "c": c, "conc": k, "lattice": [L["unit"], L["off"], L["yunit"], L["yoff"], L["wunit"]],
+    return {"id": i, "c": c, "conc": k, "lattice": [L["unit"], L["off"], L["yunit"], L["yoff"], L["wunit"], L["rep"]],
             "runs": [run_variant(c, L, p) for p in ps]}
 
 
